@@ -319,3 +319,44 @@ func (d *directTB) Fatalf(format string, args ...any) {
 	vlib.ReportDirect(d.t, key, msg, d.replay)
 }
 func (d *directTB) Logf(format string, args ...any) { d.t.Logf(format, args...) }
+
+// Fuzz is the native coverage-guided target (thorough tier): the corpus is seeded with valid
+// encodings and hostile constants; known findings are excluded inside the target so that the
+// campaign continues past them.
+func Fuzz(f *testing.F, registry []Entry) {
+	es := sortedRegistry(registry)
+	for i := range es {
+		e := &es[i]
+		if e.Cost > 8 {
+			continue
+		}
+		if e.Valid != nil {
+			for vi := 0; vi < max(1, e.NValid); vi++ {
+				f.Add(uint16(i), e.Valid(vi))
+			}
+		}
+		if e.ExactLen == 0 {
+			f.Add(uint16(i), []byte{})
+			f.Add(uint16(i), []byte{0})
+			f.Add(uint16(i), []byte{0xff, 0xff, 0xff, 0xff})
+		}
+	}
+	f.Fuzz(func(t *testing.T, idx uint16, data []byte) {
+		e := &es[int(idx)%len(es)]
+		if e.Cost > 8 {
+			return
+		}
+		if e.ExactLen > 0 && len(data) != e.ExactLen {
+			return
+		}
+		if len(data) > 1<<16 {
+			return
+		}
+		probe(fuzzTB{t}, e, "fuzz", data)
+	})
+}
+
+type fuzzTB struct{ t *testing.T }
+
+func (f fuzzTB) Fatalf(format string, args ...any) { f.t.Fatalf(format, args...) }
+func (f fuzzTB) Logf(format string, args ...any)   { f.t.Logf(format, args...) }
